@@ -167,6 +167,25 @@ def ev(S, src, **v):
     return ('val', r)
 
 
+def ev_node(S, src, text):
+    """the same with an element <r a=text>text</r> as root and context item: the untyped value comes from a node, not from a constructor"""
+    from elementpath import XPathContext, ElementPathError
+    import xml.etree.ElementTree as ET
+    try:
+        tok = S['tok'].get(src)
+        if tok is None:
+            tok = S['tok'][src] = S['p'].parse(src)
+        e = ET.Element('r')
+        e.set('a', text)
+        e.text = text
+        r = tok.evaluate(XPathContext(root=e))
+    except ElementPathError as e:
+        return ('err', (e.code or '').split(':')[-1])
+    except Exception as e:  # noqa
+        return ('escape', type(e).__name__ + ': ' + str(e)[:60])
+    return ('val', r)
+
+
 def feature(s, T=None, ver='1.1'):
     f = []
     if T in DT_TYPES and s.strip().startswith('-0000'):
@@ -227,6 +246,14 @@ def run_lexical(unit, tier, acc):
             paths['cast-from-untyped'] = r_u[0] == 'val' if r_u[0] != 'escape' else r_u
             r_u2 = ev(S, 'xs:%s(xs:untypedAtomic($s))' % T, s=s)
             paths['constructor-from-untyped'] = r_u2[0] == 'val' if r_u2[0] != 'escape' else r_u2
+            # the untyped value of an attribute node and of an element node (no constructor involved)
+            for label, src in (('cast-from-attribute', '@a cast as xs:%s' % T), ('castable-from-attribute', '@a castable as xs:%s' % T), ('constructor-from-attribute', 'xs:%s(@a)' % T),
+                               ('cast-from-element', '. cast as xs:%s' % T)):
+                r_n = ev_node(S, src, s)
+                if label.startswith('castable'):
+                    paths[label] = r_n[1] if r_n[0] == 'val' else r_n
+                else:
+                    paths[label] = r_n[0] == 'val' if r_n[0] != 'escape' else r_n
         try:
             paths['is_valid'] = bool(cls.is_valid(s))
         except Exception as e:  # noqa
@@ -338,7 +365,7 @@ def cast_sources():
         ('duration', 'P1Y2M3DT4H'), ('duration', 'PT0S'), ('yearMonthDuration', 'P14M'), ('dayTimeDuration', 'PT36H'), ('dayTimeDuration', '-PT0.5S'),
         ('dateTime', '2000-02-29T12:30:00.5Z'), ('dateTime', '1999-12-31T23:59:59'), ('dateTime', '-0001-01-01T00:00:00+14:00'), ('time', '12:30:00Z'), ('time', '24:00:00'),
         ('date', '2000-02-29Z'), ('date', '1999-12-31'), ('gYearMonth', '2000-02'), ('gYear', '2000Z'), ('gMonthDay', '--02-29'), ('gDay', '---31'), ('gMonth', '--12'),
-        ('boolean', 'true'), ('boolean', '0'), ('base64Binary', 'QUJD'), ('base64Binary', ''), ('hexBinary', '414243'), ('anyURI', 'http://x/a b'), ('anyURI', ''), ('QName', 'a:b'), ('QName', 'b'),
+        ('boolean', 'true'), ('boolean', '0'), ('base64Binary', 'QUJD'), ('base64Binary', ''), ('hexBinary', '414243'), ('hexBinary', 'AB' * 60), ('base64Binary', 'q6ur' * 20), ('hexBinary', '00' * 58), ('anyURI', 'http://x/a b'), ('anyURI', ''), ('QName', 'a:b'), ('QName', 'b'),
     ]
 
 
